@@ -6,7 +6,7 @@ Import RecordSetNotations.
 Lemma hrec_h0 f4 : HRec f4 h0.
 Proof. constructor; simpl; try congruence; try (split; congruence); intuition congruence. Qed.
 
-Lemma sinv_init f4 f14 f15 : SInv (rinit f4 f14 f15).
+Lemma sinv_init f4 f14 f15 f16 : SInv (rinit f4 f14 f15 f16).
 Proof.
   constructor; unfold lockpc, closerpc; simpl; try congruence; try (split; congruence);
     try (intros; apply hrec_h0); try (intros; lia); try (intuition congruence).
@@ -81,16 +81,17 @@ Proof. reflexivity. Qed.
 Lemma sinv_set_h s h x :
   SInv s -> h < nexth s ->
   HRec (fix4 s) x ->
-  h_inmap x = in_map_pc (h_loop x) ->
+  h_inmap x = in_map_pc (h_loop x) && negb (h_removed x) ->
   h_mid x = h_mid (hs s h) ->
   (h_started (hs s h) = true -> h_started x = true) ->
   (h_startedCh (hs s h) = true -> h_startedCh x = true) ->
   (lockpc s = Some (HMid2 h) -> h_started x = true /\ h_loop x = LNone) ->
   (h_started x = true -> h_loop x = LNone -> lockpc s = Some (HMid2 h)) ->
-  pend (h_loop x) = pend (h_loop (hs s h)) ->
+  pendh x = pendh (hs s h) ->
+  h_removed x = h_removed (hs s h) ->
   SInv (set_h s h x).
 Proof.
-  intros I Hh Hr Him Hmid Hst Hsc Hm2 Hsp Hp.
+  intros I Hh Hr Him Hmid Hst Hsc Hm2 Hsp Hp Hrm.
   dI I. constructor; rewrite ?lockpc_set_h; simpl; try assumption.
   - intros h' Hh'. upds; [lia | auto].
   - intros h'. upds; auto.
@@ -99,7 +100,7 @@ Proof.
   - intros h' E. upds; [rewrite Hmid|]; auto.
   - intros h' E. upds; auto.
   - intros h'. upds; auto.
-  - intros Hr' h' Hh'. upds; auto.
+  - intros Hr' h' Hh' Rm. upds; auto. apply Hst. apply J14; auto. congruence.
   - intros t h' a E. destruct (J18 t h' a E) as [E1 E2]. upds; split; auto.
   - intros t h' a E. pose proof (J19 t h' a E). upds; auto.
   - rewrite J21. apply cnt_ext. intros h' Hh'. upds; [now rewrite Hp|reflexivity].
@@ -143,8 +144,9 @@ Ltac seth I h :=
   | simpl; try solve [apply (i_mid2 _ I)
                      | let E := fresh in intros E; apply (i_mid2 _ I) in E; intuition congruence]
   | simpl; try solve [apply (i_spawn _ I) | intros; congruence]
-  | simpl; try solve [reflexivity | congruence
-                     | repeat match goal with E : h_loop _ = _ |- _ => rewrite E end; reflexivity] ].
+  | unfold pendh; simpl; try solve [reflexivity | congruence
+                     | repeat match goal with E : h_loop _ = _ |- _ => rewrite E end; reflexivity]
+  | simpl; try reflexivity ].
 
 Lemma step_subend s h s' evs : SInv s -> step s (LSubEnd h) = Some (s', evs) -> SInv s'.
 Proof.
@@ -182,6 +184,12 @@ Lemma sinv_closedF s b : SInv s -> SInv (s <| closedF := b |>). Proof. intros I.
 Lemma sinv_clock s b : SInv s -> SInv (s <| clock := b |>). Proof. intros I. irrel I. Qed.
 Lemma sinv_hadded s b : SInv s -> SInv (s <| hadded := b |>). Proof. intros I. irrel I. Qed.
 
+Lemma not_removed s h : SInv s -> h_loop (hs s h) <> LNone -> h_removed (hs s h) = false.
+Proof.
+  intros I L. destruct (i_hrec _ I h). destruct (h_removed (hs s h)) eqn:E; auto.
+  destruct (r_removed eq_refl) as [A _]. destruct (r_loop L) as [B _]. congruence.
+Qed.
+
 (** handlersWg.Done() of handler h *)
 Lemma sinv_wgdone s h x w :
   SInv s -> h < nexth s -> hwg s = S w ->
@@ -190,6 +198,7 @@ Lemma sinv_wgdone s h x w :
 Proof.
   intros I Hh Hw Hl ->.
   pose proof (i_hrec _ I h) as R. pose proof (i_inmap _ I h Hh) as Him. pose proof (i_mid2 _ I h) as M2.
+  assert (Rm : h_removed (hs s h) = false) by (apply not_removed; auto; congruence).
   dI I. constructor; unfold lockpc in *; simpl in *; try assumption.
   - intros h' Hh'. upds; [lia | auto].
   - intros h'. upds; auto. destruct R. rewrite Hl in *. constructor; simpl; auto; try solve [intuition congruence].
@@ -198,14 +207,14 @@ Proof.
   - intros h' E. upds; simpl; auto.
   - intros h' E. upds; simpl; auto. apply M2 in E. rewrite Hl in E. intuition congruence.
   - intros h'. upds; simpl; auto. congruence.
-  - intros Hr' h' Hh'. upds; simpl; auto.
+  - intros Hr' h' Hh' Rm'. upds; simpl in *; auto.
   - intros t h' a E. destruct (J18 t h' a E) as [E1 E2]. upds; split; auto.
   - intros t h' a E. pose proof (J19 t h' a E). upds; auto.
-  - assert (E : cnt (fun h0 => pend (h_loop (hs s h0))) (nexth s)
-                = S (cnt (fun h' => pend (h_loop (upd (hs s) h (hs s h <| h_loop := LDelete |>) h'))) (nexth s))).
+  - assert (E : cnt (fun h0 => pendh (hs s h0)) (nexth s)
+                = S (cnt (fun h' => pendh (upd (hs s) h (hs s h <| h_loop := LDelete |>) h')) (nexth s))).
     { apply cnt_flip with (h := h); auto.
-      - now rewrite Hl.
-      - now rewrite upd_same.
+      - unfold pendh. now rewrite Hl, Rm.
+      - rewrite upd_same. unfold pendh. reflexivity.
       - intros h' Hne. now rewrite upd_other. }
     lia.
 Qed.
@@ -217,8 +226,8 @@ Proof.
   - apply sinv_pubclosed. seth I h.
   - seth I h.
   - exfalso. assert (Hh : h < nexth s) by lt_by I.
-    assert (P : 0 < cnt (fun h0 => pend (h_loop (hs s h0))) (nexth s)).
-    { apply cnt_pos with (h := h); [exact Hh|]. now rewrite Heql. }
+    assert (P : 0 < cnt (fun h0 => pendh (hs s h0)) (nexth s)).
+    { apply cnt_pos with (h := h); [exact Hh|]. unfold pendh. rewrite Heql, (not_removed s h I) by congruence. reflexivity. }
     rewrite <- (i_cnt _ I) in P. lia.
   - assert (Hh : h < nexth s) by lt_by I. eapply sinv_wgdone; eauto.
   - apply sinv_maplen. seth I h.
@@ -242,17 +251,17 @@ Qed.
 
 Lemma sinv_locked_move s me par p p' h x :
   SInv s -> holder s me par p -> rhl p = true -> rhl p' = true ->
-  h < nexth s -> HRec (fix4 s) x -> h_inmap x = in_map_pc (h_loop x) ->
+  h < nexth s -> HRec (fix4 s) x -> h_inmap x = in_map_pc (h_loop x) && negb (h_removed x) ->
   (h_started (hs s h) = true -> h_started x = true) ->
   (h_startedCh (hs s h) = true -> h_startedCh x = true) ->
-  pend (h_loop x) = pend (h_loop (hs s h)) ->
+  pendh x = pendh (hs s h) -> h_removed x = h_removed (hs s h) ->
   (forall h', h_mid (upd (hs s) h x h') = true -> p' = HMid1 h') ->
   (forall h', p' = HMid1 h' -> h_mid (upd (hs s) h x h') = true) ->
   (forall h', p' = HMid2 h' -> h_started (upd (hs s) h x h') = true /\ h_loop (upd (hs s) h x h') = LNone) ->
   (forall h', h_started (upd (hs s) h x h') = true -> h_loop (upd (hs s) h x h') = LNone -> p' = HMid2 h') ->
   SInv (setpc (set_h s h x) me par p').
 Proof.
-  intros I Hh Hp Hp' Hlt Hr Him Hst Hsc Hpe C7 C8 C9 C10.
+  intros I Hh Hp Hp' Hlt Hr Him Hst Hsc Hpe Hrm C7 C8 C9 C10.
   pose proof (lockpc_setpc s me par p p' h x Hh) as LP.
   destruct Hh as [HL HP].
   pose proof I as I0. dI I. constructor; rewrite ?LP.
@@ -275,7 +284,7 @@ Proof.
   - destruct me; simpl in *; try (exfalso; exact HP); auto.
   - destruct me; simpl in *; try (exfalso; exact HP).
     + discriminate.
-    + intros E h' Hh'. specialize (J14 E h' Hh'). upds; auto.
+    + intros E h' Hh' Rm. upds; [apply Hst; apply J14; auto; congruence|auto].
   - destruct me; simpl in *; try (exfalso; exact HP); auto.
     rewrite J15. rewrite HP. split; congruence.
   - intros t'. destruct me; simpl in *; try (exfalso; exact HP).
@@ -326,7 +335,7 @@ Lemma sinv_relock s s' :
   (runningCh s' = true -> run_closed_running (mainp s') = true) ->
   (main_hl (mainp s') = true -> run_n s' = nexth s) ->
   run_n s' <= nexth s ->
-  (run_started (mainp s') = true -> forall h, h < run_n s' -> h_started (hs s h) = true) ->
+  (run_started (mainp s') = true -> forall h, h < run_n s' -> h_removed (hs s h) = false -> h_started (hs s h) = true) ->
   (mainp s' = RNone <-> mainp s = RNone) ->
   (forall t, thr s' t = thr s t \/
              (thr s' t <> TMain /\ thr s' t <> TRunDone true /\
@@ -452,12 +461,13 @@ Lemma hl_of_main s : SInv s -> main_hl (mainp s) = true -> hlock s = Some OMain.
 Proof. intros I E. now apply (i_hl_main _ I). Qed.
 
 (** every handler of the map is started: every handler added so far is started *)
-Lemma all_started_all s : SInv s -> all_started s = true -> forall h, h < nexth s -> h_started (hs s h) = true.
+Lemma all_started_all s : SInv s -> all_started s = true ->
+  forall h, h < nexth s -> h_removed (hs s h) = false -> h_started (hs s h) = true.
 Proof.
-  intros I A h Hh. unfold all_started in A. rewrite forallb_seq in A. specialize (A h Hh).
+  intros I A h Hh Rm. unfold all_started in A. rewrite forallb_seq in A. specialize (A h Hh).
   apply orb_true_iff in A as [A|A]; [|exact A].
-  apply negb_true_iff in A. rewrite (i_inmap _ I h Hh) in A.
-  destruct (i_hrec _ I h) as [_ R _ _ _ _ _ _ _ _].
+  apply negb_true_iff in A. rewrite (i_inmap _ I h Hh), Rm, andb_true_r in A.
+  destruct (i_hrec _ I h) as [_ R _ _ _ _ _ _ _ _ _].
   destruct (h_loop (hs s h)) eqn:E; simpl in A; try discriminate; apply R; congruence.
 Qed.
 
@@ -470,7 +480,7 @@ Proof.
   pose proof (all_started_all s I A) as AA.
   rewrite E in *; simpl in *.
   apply (sinv_relock s); auto; relock_fin.
-  all: try solve [intros; apply AA; lia].
+  all: try solve [intros; apply AA; auto; lia].
   all: try solve [destruct F as [F _]; intros t'; split; [discriminate|]; intros X; rewrite F in X; discriminate].
 Qed.
 
